@@ -40,14 +40,32 @@ func rtGenBoxes(r *rand.Rand, n, layout, coord int) []rtree.Box {
 		case 7: // every item the same degenerate point (with the matching translation: the all-zero box)
 			c := float64(coord / 2)
 			b = rtree.Box{MinX: c, MinY: c, MaxX: c, MaxY: c}
-		case 8: // the first item is the point (c, c) - the origin after the translation by -c, and with record id 0 the
-			// all-zero entry - and every other item lies strictly beyond it: bounds and searches must count it in
+		case 8: // item n/2 is the point (c, c) - the origin after the translation by -c, and with record id 0 the all-zero
+			// entry - and every other item lies strictly to one side of it along one axis and on both sides along the
+			// other (so that it is an extreme of its leaf without being the first entry): bounds and searches must count it
 			c := float64(coord / 2)
-			if i == 0 {
+			if i == n/2 {
 				b = rtree.Box{MinX: c, MinY: c, MaxX: c, MaxY: c}
 			} else {
-				x, y := c+1+float64(r.Intn(coord/2)), c+1+float64(r.Intn(coord/2))
-				b = rtree.Box{MinX: x, MinY: y, MaxX: x + float64(r.Intn(2)), MaxY: y + float64(r.Intn(2))}
+				u := c - float64(coord/2) + float64(r.Intn(2*(coord/2)+1)) // both sides
+				v := c + 1 + float64(r.Intn(coord/2))                      // strictly beyond
+				if n%4 >= 2 {
+					v = c - 1 - float64(r.Intn(coord/2))
+				}
+				x, y := u, v
+				if n%2 == 1 {
+					x, y = v, u
+				}
+				b = rtree.Box{MinX: x, MinY: y, MaxX: x, MaxY: y}
+				if r.Intn(3) == 0 {
+					b.MaxX, b.MaxY = x+float64(r.Intn(2)), y+float64(r.Intn(2))
+					if n%4 >= 2 && n%2 == 0 && b.MaxY >= c { // stay strictly beyond
+						b.MaxY = y
+					}
+					if n%4 >= 2 && n%2 == 1 && b.MaxX >= c {
+						b.MaxX = x
+					}
+				}
 			}
 		case 4: // collinear
 			b = rtree.Box{MinX: x, MinY: 3, MaxX: x + w, MaxY: 3}
@@ -102,7 +120,7 @@ func rtGen(r *rand.Rand, n int, tier string, emit func(Case)) {
 			}
 		}
 		if i%10 == 4 {
-			layout, idbase, off = 8, 0, -(coord / 2)
+			layout, idbase, off = 8, -(sz / 2), -(coord / 2)
 		}
 		emit(Case{"n": sz, "layout": layout, "seed": r.Int63(), "searches": searches, "coord": coord, "idbase": idbase, "off": off})
 	}
